@@ -9,6 +9,8 @@ mod fw;
 mod genm;
 mod props;
 mod rng;
+mod sim;
+mod simprops;
 mod stdprobe;
 mod vclock;
 
@@ -192,6 +194,57 @@ fn main() {
                 &arg(a, "--out").expect("--out"),
                 arg(a, "--only").map(|s| s.parse().unwrap()),
             )
+        }
+        Some("sim") => {
+            let a = &args[2..];
+            let prop = arg(a, "--prop").expect("--prop");
+            let seed: u64 = arg(a, "--seed").map(|s| s.parse().unwrap()).unwrap_or(1);
+            let n: usize = arg(a, "--n").map(|s| s.parse().unwrap()).unwrap_or(100);
+            let out = arg(a, "--out").expect("--out");
+            let only: Option<usize> = arg(a, "--only").map(|s| s.parse().unwrap());
+            std::fs::create_dir_all(&out).unwrap();
+            let mut cases = BufWriter::new(File::create(format!("{}/cases.txt", out)).unwrap());
+            let mut implo = BufWriter::new(File::create(format!("{}/impl.out", out)).unwrap());
+            let mut meta = BufWriter::new(File::create(format!("{}/meta.txt", out)).unwrap());
+            let mut master = SplitMix64::new(prop_seed(&prop, seed));
+            let (mut viol, mut panics, mut events) = (0usize, 0usize, 0usize);
+            let mut nontrivial = HashSet::new();
+            for i in 0..n {
+                let mut r = master.fork();
+                if let Some(o) = only {
+                    if o != i {
+                        continue;
+                    }
+                }
+                let c = sim::gen_sim_case(&prop, &mut r);
+                let run = sim::run_sim(&c);
+                let toks = sim::enc_sim_case(&c, &run);
+                writeln!(cases, "{}", enc::hex_line(None, &toks)).unwrap();
+                for l in sim::out_lines(&run) {
+                    writeln!(implo, "{}", enc::hex_line(Some(i), &l)).unwrap();
+                }
+                match &run.out {
+                    Err(m) => {
+                        panics += 1;
+                        writeln!(meta, "panic case={} msg={}", i, m).unwrap();
+                    }
+                    Ok(tr) => {
+                        events += tr.len();
+                        if tr.iter().any(|e| e.pad || e.kind >= 6) || (prop == "C14" && !tr.is_empty()) {
+                            nontrivial.insert(toks.clone());
+                        }
+                    }
+                }
+                if let Some(v) = simprops::monitor(&prop, &c, &run) {
+                    viol += 1;
+                    writeln!(meta, "violation case={} {}", i, v).unwrap();
+                }
+                if only.is_some() || (i < 2) {
+                    writeln!(meta, "{} case={} {:?} trace={:?}", if only.is_some() { "replay" } else { "sample" }, i,
+                        (c.mc.iter().map(|m| m.serialize()).collect::<Vec<_>>(), c.ms.iter().map(|m| m.serialize()).collect::<Vec<_>>(), c.fr, c.delay_ns, c.pps, c.via_parse, c.max_trace, c.max_iter, c.cont, c.only_client, c.only_network, c.seed), c.trace).unwrap();
+                }
+            }
+            writeln!(meta, "summary cases={} nontrivial={} violations={} panics={} events={}", n, nontrivial.len(), viol, panics, events).unwrap();
         }
         Some("c12") => {
             let a = &args[2..];
